@@ -178,8 +178,23 @@ def run_lines(binary, lines, timeout=600, crash_token='CRASH', env=None, cwd=Non
     n = len(lines)
     while i < n:
         chunk = lines[i:]
-        p = subprocess.run([binary], input='\n'.join(chunk) + '\n', stdout=subprocess.PIPE,
-                           stderr=subprocess.PIPE, text=True, timeout=timeout, env=env, cwd=cwd)
+        try:
+            p = subprocess.run([binary], input='\n'.join(chunk) + '\n', stdout=subprocess.PIPE,
+                               stderr=subprocess.PIPE, text=True, timeout=timeout, env=env, cwd=cwd)
+        except subprocess.TimeoutExpired as e:
+            # the process hangs on some case: the answers received so far stand, the case it hangs on is TIMEOUT (not an
+            # exception of the check), the rest is run in a fresh process
+            out = e.stdout or ''
+            if isinstance(out, bytes):
+                out = out.decode('utf-8', 'replace')
+            got = [l for l in out.split('\n') if l != '']
+            if out and not out.endswith('\n') and got:
+                got = got[:-1]
+            got = got[:len(chunk) - 1]
+            results.extend(got)
+            results.append('TIMEOUT no answer within %ds' % timeout)
+            i += len(got) + 1
+            continue
         got = [l for l in p.stdout.split('\n') if l != '']
         if len(got) >= len(chunk):
             results.extend(got[:len(chunk)])
